@@ -892,3 +892,114 @@ func (c *Config) CanonBound(p *big.Int) *big.Int {
 	}
 	return b.bound(p)
 }
+
+// ---- alternatives for prover-supplied values the specification does not know -----------------------------------------
+//
+// GlGadgets.tla specifies the four hint functions of the Goldilocks chip.  A hint call of any other name (gnark's own bit
+// decomposition used directly, a hint added by a change) is a prover-supplied value the specification has no game for; the
+// families below are the generic moves of that prover, recognised from the honest call's shape:
+//
+//	bits   all outputs 0/1 and sum b_i 2^i = input:   one low bit flipped, compensated by a non-boolean top digit (field inverse of
+//	       2^(n-1));  the bits of input + r (when they fit);  everything in digit 0
+//	split  two outputs and input = lo + 2^k hi (either order, k <= 128):  lo with its lowest bit flipped, hi solved in the field
+//	other  every output + 1, one at a time (decided by the whole run, not locally)
+type Alternative struct {
+	Family string
+	Out    []*big.Int
+	Global bool // verdict by the whole run instead of the local one
+}
+
+var knownHints = map[string]bool{"ReduceHint": true, "MulAddHint": true, "SplitLimbsHint": true, "InverseHint": true}
+
+func KnownHint(name string) bool { return knownHints[name] }
+
+func ForeignAlternatives(c *HintCall) []Alternative {
+	if c.Honest == nil || len(c.Honest) == 0 {
+		return nil
+	}
+	var alts []Alternative
+	h := c.Honest
+	n := len(h)
+	one := big.NewInt(1)
+	// bits?
+	if n >= 2 && len(c.Inputs) >= 1 {
+		x := c.Inputs[len(c.Inputs)-1]
+		isBits := true
+		sum := new(big.Int)
+		for i := n - 1; i >= 0; i-- {
+			if h[i].Sign() != 0 && h[i].Cmp(one) != 0 {
+				isBits = false
+				break
+			}
+			sum.Lsh(sum, 1).Add(sum, h[i])
+		}
+		if isBits && new(big.Int).Mod(sum, R).Cmp(new(big.Int).Mod(x, R)) == 0 {
+			cp := func() []*big.Int {
+				o := make([]*big.Int, n)
+				for i := range o {
+					o[i] = new(big.Int).Set(h[i])
+				}
+				return o
+			}
+			// (a) low bit flipped, top digit absorbs the difference
+			a := cp()
+			delta := big.NewInt(1) // new - old of digit 0
+			if a[0].Sign() != 0 {
+				delta.SetInt64(-1)
+			}
+			a[0] = new(big.Int).Add(a[0], delta)
+			inv := new(big.Int).ModInverse(new(big.Int).Lsh(one, uint(n-1)), R)
+			a[n-1] = new(big.Int).Mod(new(big.Int).Sub(a[n-1], new(big.Int).Mul(delta, inv)), R)
+			alts = append(alts, Alternative{Family: "bits/nonboolean-top-digit", Out: a})
+			// (b) the bits of x + r
+			y := new(big.Int).Add(new(big.Int).Mod(x, R), R)
+			if y.BitLen() <= n {
+				b := make([]*big.Int, n)
+				for i := range b {
+					b[i] = big.NewInt(int64(y.Bit(i)))
+				}
+				alts = append(alts, Alternative{Family: "bits/of-input-plus-r", Out: b})
+			}
+			// (c) everything in digit 0
+			if sum.Cmp(one) > 0 {
+				z := make([]*big.Int, n)
+				for i := range z {
+					z[i] = new(big.Int)
+				}
+				z[0] = new(big.Int).Mod(x, R)
+				alts = append(alts, Alternative{Family: "bits/all-in-digit-0", Out: z})
+			}
+			return alts
+		}
+	}
+	// split?
+	if n == 2 && len(c.Inputs) >= 1 {
+		x := new(big.Int).Mod(c.Inputs[len(c.Inputs)-1], R)
+		for k := uint(1); k <= 128; k++ {
+			for ord := 0; ord < 2; ord++ {
+				lo, hi := h[ord], h[1-ord]
+				v := new(big.Int).Lsh(hi, k)
+				v.Add(v, lo).Mod(v, R)
+				if v.Cmp(x) != 0 || (hi.Sign() == 0 && lo.Cmp(x) == 0 && k > 1) {
+					continue
+				}
+				lo2 := new(big.Int).Xor(lo, one)
+				hi2 := new(big.Int).Sub(x, lo2)
+				hi2.Mul(hi2, new(big.Int).ModInverse(new(big.Int).Lsh(one, k), R)).Mod(hi2, R)
+				out := make([]*big.Int, 2)
+				out[ord], out[1-ord] = lo2, hi2
+				return append(alts, Alternative{Family: fmt.Sprintf("split/low-bit-flipped-high-solved k=%d", k), Out: out})
+			}
+		}
+	}
+	// other
+	for i := range h {
+		o := make([]*big.Int, n)
+		for j := range o {
+			o[j] = new(big.Int).Set(h[j])
+		}
+		o[i] = new(big.Int).Mod(new(big.Int).Add(o[i], one), R)
+		alts = append(alts, Alternative{Family: fmt.Sprintf("other/output-%d-plus-1", i), Out: o, Global: true})
+	}
+	return alts
+}
